@@ -10,6 +10,7 @@ import (
 	"time"
 
 	"github.com/alpacahq/marketstore/v4/sqlparser"
+	"github.com/alpacahq/marketstore/v4/utils"
 	"github.com/alpacahq/marketstore/v4/utils/functions"
 	"github.com/alpacahq/marketstore/v4/utils/io"
 
@@ -37,6 +38,7 @@ type c21In struct {
 	Mult   int        `json:"mult"`
 	Suffix string     `json:"suffix"` // Sec | Min | H | D
 	Runner bool       `json:"runner"`
+	Zone   int        `json:"zone"` // UTC offset (seconds) of the system timezone (utils.InstanceConfig.Timezone); 0 = UTC
 	SumIdx []int      `json:"sum_idx"` // indices into Acc, output order of the _SUM columns
 	AvgIdx []int      `json:"avg_idx"`
 	Chunks []c21Chunk `json:"chunks"`
@@ -44,6 +46,18 @@ type c21In struct {
 
 var c21Suffixes = []string{"Sec", "Min", "H", "D"}
 var c21Mults = []int{1, 1, 1, 2, 3, 5, 7, 10, 15, 30, 45, 60, 90}
+var c21Zones = []int{19800, -18000, 3600, 1800, 32400, -34200, 45900} // +05:30 -05:00 +01:00 +00:30 +09:00 -09:30 +12:45
+
+// c21SetZone configures the system timezone the candlers see and returns the restore function.
+func c21SetZone(off int) func() {
+	old := utils.InstanceConfig.Timezone
+	if off == 0 {
+		utils.InstanceConfig.Timezone = time.UTC
+	} else {
+		utils.InstanceConfig.Timezone = time.FixedZone(fmt.Sprintf("F%+d", off), off)
+	}
+	return func() { utils.InstanceConfig.Timezone = old }
+}
 
 const c21ZeroTimeUnix = -62135596800
 
@@ -176,6 +190,9 @@ func c21Gen(r *rng.Rand, i int, tier string) interface{} {
 	}
 	if r.Chance(2) {
 		in.Mult = 0
+	}
+	if r.Chance(25) { // a system timezone at a fixed offset other than UTC
+		in.Zone = c21Zones[r.Intn(len(c21Zones))]
 	}
 	nacc := []int{0, 0, 1, 1, 2, 3}[r.Intn(6)]
 	used := make([]bool, nacc)
@@ -376,6 +393,7 @@ func c21Exec(in *c21In) (obs c21Obs, lastCS *io.ColumnSeries, err error) {
 	if in.Kind == "candle" {
 		name = "candlecandler"
 	}
+	defer c21SetZone(in.Zone)()
 	defer func() {
 		if p := recover(); p != nil {
 			obs.Code, obs.Err, err = 2, fmt.Sprint(p), nil
@@ -571,9 +589,10 @@ func c21Ticks(in *c21In) (rows []c21Tick, ok bool) {
 func c21Window(in *c21In, t *big.Int) int64 {
 	sec, ns := new(big.Int).DivMod(t, big.NewInt(1000000000), new(big.Int))
 	tm := time.Unix(sec.Int64(), ns.Int64()).UTC()
-	if in.Suffix == "D" {
-		y, m, d := tm.Date()
-		return time.Date(y, m, d, 0, 0, 0, 0, time.UTC).Unix()
+	if in.Suffix == "D" { // the local calendar day of the configured zone
+		loc := time.FixedZone("oracle", in.Zone)
+		y, m, d := tm.In(loc).Date()
+		return time.Date(y, m, d, 0, 0, 0, 0, loc).Unix()
 	}
 	return tm.Truncate(time.Duration(c21Dur(in.Mult, in.Suffix)) * time.Second).Unix()
 }
@@ -791,7 +810,7 @@ func c21Run(raw json.RawMessage) (res Result, err error) {
 	for ci := range in.Chunks {
 		inputs = append(inputs, c21CoqInput(&in.Chunks[ci]))
 	}
-	res.Coq = cq.Rec(cq.F("k_mult", cq.Z(int64(in.Mult))), cq.F("k_suffix", cq.Str(in.Suffix)),
+	res.Coq = cq.Rec(cq.F("k_off", cq.Z(int64(in.Zone))), cq.F("k_mult", cq.Z(int64(in.Mult))), cq.F("k_suffix", cq.Str(in.Suffix)),
 		cq.F("k_sum_idx", c21Nats(in.SumIdx)), cq.F("k_avg_idx", c21Nats(in.AvgIdx)),
 		cq.F("k_inputs", cq.List(inputs)), cq.F("k_code", cq.Nat(obs.Code)), cq.F("k_out", c21CoqRows(obs.Rows)))
 
@@ -806,7 +825,8 @@ func c21Run(raw json.RawMessage) (res Result, err error) {
 			hasNaN = true
 		}
 	}
-	scope := in.Mult >= 1 && (in.Suffix != "D" || in.Mult == 1) // "2D" candles have one-day windows (timeframe arithmetic, C31)
+	multiday := in.Suffix == "D" && in.Mult > 1
+	scope := in.Mult >= 1 && !multiday
 	res.InDomain = wellFormed && scope && !zeroTime
 	res.Holds = true
 	if wellFormed && scope {
@@ -834,9 +854,36 @@ func c21Run(raw json.RawMessage) (res Result, err error) {
 			}
 		}
 	}
+	// "<n>D", n > 1: whatever the alignment of n-day windows, K consecutive days are covered by at most ceil((K-1)/n)+1 of them
+	if wellFormed && multiday && !zeroTime && obs.Code == 0 {
+		days := map[int64]bool{}
+		for _, g := range obs.Rows {
+			days[(g.Epoch+int64(in.Zone))/86400] = true
+		}
+		for d := range days {
+			if days[d-1] {
+				continue
+			}
+			k := int64(0)
+			for days[d+k] {
+				k++
+			}
+			n := int64(in.Mult)
+			if bound := (k-1+n-1)/n + 1; k > bound {
+				res.Holds, res.Class = false, "multiday-window"
+				res.Detail = fmt.Sprintf("%d%s: %d candles over %d consecutive days, at most %d windows of %d days can cover them", in.Mult, in.Suffix, k, k, bound, n)
+			}
+		}
+	}
 	res.Nontrivial = res.InDomain && len(rows) >= 3
 	res.Tags = []string{"kind:" + in.Kind, "suffix:" + in.Suffix, fmt.Sprintf("code=%d", obs.Code), fmt.Sprintf("chunks=%d", len(in.Chunks)),
 		fmt.Sprintf("rows=%d", bucket(len(rows))), fmt.Sprintf("candles=%d", bucket(len(obs.Rows))), fmt.Sprintf("acc=%d", len(in.SumIdx)+len(in.AvgIdx))}
+	if in.Zone != 0 {
+		res.Tags = append(res.Tags, fmt.Sprintf("zone=%+d", in.Zone))
+	}
+	if multiday {
+		res.Tags = append(res.Tags, "multiday")
+	}
 	if in.Runner {
 		res.Tags = append(res.Tags, "via-runner")
 	} else {
